@@ -118,52 +118,70 @@ def run(ctx):
         common = [(n_, tv, g) for (n_, tv, g) in ds[0] if all(any(n2 == n_ and t2 == tv for n2, t2, _ in d) for d in ds[1:])]
         return common
 
-    # --- R1 / R2: stores to the counter inside the loop
-    zero = []
-    incs = []
-    for st in s.stores:
-        if st.get('local') and st['target'] == ('ref', root, ()) and st['blk'] in L['blocks']:
-            v = norm(st['value'])
-            if v[0] == 'int' and v[1] == 0:
-                zero.append(st)
-            else:
-                incs.append((st, v))
+    # --- R1 / R2: the counter after one loop iteration, as a decision table over the move kinds
+    zero = [st for st in s.stores if st.get('local') and st['target'] == ('ref', root, ()) and st['blk'] in L['blocks']
+            and norm(st['value'])[0] == 'int' and norm(st['value'])[1] == 0]
     init = norm(s.exit[L['pre']].get(root)) if L['pre'] is not None else None
     if init is not None and init[0] == 'int' and init[1] == 0:
         ctx.ok('C11.R2', 'counter starts at 0', w)
     else:
         ctx.violation('C11.R2', KEY + ':init', 'counter does not start at 0 (%s)' % sh(init, 60), w)
-    for st in zero:
-        for gs in body_dnf(st['blk']):
-            names = [(n_, tv) for n_, tv, _ in gs]
-            positive = [n_ for n_, tv in names if tv is True and n_ in ('pawn-move', 'capture')] + \
-                       [n_ for n_, tv in names if tv is False and n_ == 'not-capture']
-            foreign = [n_ for n_, tv in names if n_ not in ('pawn-move', 'capture', 'not-capture')]
-            if positive:
-                ctx.ok('C11.R1', 'counter reset caused by %s' % positive[0], where(body, st['line']))
-            else:
-                cause = foreign[0] if foreign else 'no pawn-move/capture condition'
-                ctx.violation('C11.R1', '%s:reset:%s' % (KEY, cause.split(':')[0]),
-                              'the fifty-move counter is reset under a condition other than pawn move or capture: %s' % cause,
-                              where(body, st['line']))
-    if not zero:
-        ctx.violation('C11.R1', KEY + ':no-reset', 'the counter is never reset inside the replay loop', w)
-    ctx.floor('C11.R1', 'counter resets inside the replay loop', len(zero), 2)
-    okinc = False
-    for st, v in incs:
-        if v == ('bin', 'Add', counter, ('int', 1, v[3][2] if v[0] == 'bin' and v[3][0] == 'int' else 'i32')):
-            gs = body_guards(st['blk'])
-            names = {(n_, tv) for n_, tv, _ in gs}
-            if names <= {('pawn-move', False), ('capture', False), ('not-capture', True)} and ('pawn-move', False) in names and \
-                    (('capture', False) in names or ('not-capture', True) in names):
-                okinc = True
-                ctx.ok('C11.R2', 'counter += 1 exactly when the move is neither a pawn move nor a capture', where(body, st['line']))
-            else:
-                ctx.violation('C11.R2', KEY + ':increment-guard', 'the increment is guarded by %s' % sorted(names, key=str), where(body, st['line']))
+    latch = loop_latch_value(s, L, root)
+    if latch is None:
+        ctx.inconclusive('C11.R1', 'counter update per iteration not determined')
+    else:
+        lv = norm(latch)
+        unknown = []
+        bad = []
+        inc_ty = 'i32'
+        for x in walk(lv):
+            if x[0] == 'bin' and x[1] == 'Add' and x[2] == counter and x[3][0] == 'int':
+                inc_ty = x[3][2]
+        for ismove in (True, False):
+            for pawn in (True, False):
+                for capture in (True, False):
+                    for rights in (True, False):
+                        def decide(c, vals):
+                            cn = norm(c)
+                            if cn[0] == 'discr' and cn[1] == ELEM:
+                                return mm_disc if ismove else 'otherwise'
+                            k = classify(c, None, MV)
+                            if k == 'pawn-move':
+                                return as_bool(pawn, vals)
+                            if k == 'capture':
+                                return as_bool(capture, vals)
+                            if k == 'not-capture':
+                                return as_bool(not capture, vals)
+                            if k == 'rights-changed':
+                                return None     # must not matter: explore both outcomes
+                            unknown.append(k)
+                            return None
+                        leaves = set(eval_tree(lv, decide))
+                        if not ismove:
+                            want = counter
+                        elif pawn or capture:
+                            want = ('int', 0, inc_ty)
+                        else:
+                            want = ('bin', 'Add', counter, ('int', 1, inc_ty))
+                        if leaves != {want}:
+                            bad.append((ismove, pawn, capture, sorted(sh(l, 60) for l in leaves), sh(want, 60)))
+        foreign = sorted(set(u for u in unknown))
+        if foreign:
+            ctx.violation('C11.R1', KEY + ':reset:' + foreign[0].split(':')[0],
+                          'the fifty-move counter depends on a condition other than pawn move / capture: ' + foreign[0], w)
+        elif bad:
+            b0 = bad[0]
+            kind = 'reset' if any('0' == x for x in b0[3]) and b0[4] != '0' else 'update'
+            ctx.violation('C11.R1' if kind == 'reset' else 'C11.R2', KEY + ':counter-table',
+                          'counter update wrong in %d of 16 cases; e.g. (MakeMove=%s, pawn move=%s, capture=%s): %s, required %s -- only pawn moves '
+                          'and captures reset the count; every other move adds one' % (len(bad), b0[0], b0[1], b0[2], b0[3], b0[4]),
+                          where(body, zero[0]['line'] if zero else None))
         else:
-            ctx.violation('C11.R2', KEY + ':increment', 'counter is updated with %s instead of counter + 1' % sh(v, 100), where(body, st['line']))
-    if not incs:
-        ctx.violation('C11.R2', KEY + ':no-increment', 'the counter is never incremented', w)
+            ctx.ok('C11.R1', 'counter per MakeMove: 0 after a pawn move or a capture -- and under no other condition (castling-rights changes do not matter)', w)
+            ctx.ok('C11.R2', 'counter per MakeMove: +1 on every other move; unchanged by non-move actions (16 cases)', w)
+    for st in zero:
+        ctx.instance('C11.R1', 'reset site', where(body, st['line']))
+    ctx.floor('C11.R1', 'counter resets inside the replay loop', len(zero), 2)
     # --- R4 list discipline
     lst = None
     pushes = [c for c in s.calls if c['callee'] == 'alloc::vec::Vec::<T, A>::push']
